@@ -224,8 +224,8 @@ proof fn lemma_step_trans(cs0: Seq<KeyedShardCollection>, cs1: Seq<KeyedShardCol
 proof fn lemma_key_step(cs0: Seq<KeyedShardCollection>, bykey0: Map<MerkleHash, usize>, byhash: Map<MerkleHash, (usize, usize)>,
         key: MerkleHash, cs1: Seq<KeyedShardCollection>, bykey1: Map<MerkleHash, usize>, idx: usize)
     requires bk_wf_parts(cs0, bykey0, byhash),
-        bykey0.contains_key(key) ==> bykey1 == bykey0 && idx == bykey0[key] && cs1 == cs0,
-        !bykey0.contains_key(key) ==> bykey1 == bykey0.insert(key, idx) && idx == cs0.len() && cs1.len() == cs0.len() + 1
+        /*@C18,C11,C05*/ bykey0.contains_key(key) ==> bykey1 == bykey0 && idx == bykey0[key] && cs1 == cs0,
+        /*@C18,C11,C05*/ !bykey0.contains_key(key) ==> bykey1 == bykey0.insert(key, idx) && idx == cs0.len() && cs1.len() == cs0.len() + 1
             && (forall|i: int| 0 <= i < cs0.len() ==> cs1[i] == cs0[i])
             && cs1[cs0.len() as int].hmac_key == key && cs1[cs0.len() as int].shard_list@.len() == 0
             && cs1[cs0.len() as int].chunk_lookup@ == Map::<u64, ChunkCacheElement>::empty(),
@@ -565,7 +565,7 @@ impl ShardFileManager {
                             shard_col.chunk_lookup@.dom().finite(),
                             old_chunk_lookup_size <= shard_col.chunk_lookup@.len() <= old_chunk_lookup_size + vx_n2,
                             0 <= ll <= shard_index,
-                            forall|jj: int| 0 <= jj < vx_n2 && (#[trigger] trunc_table(**s)[jj]).1.1 <= 65535 ==> fresh(*shard_col, ll, trunc_table(**s)[jj].0),
+                            /*@C11*/ forall|jj: int| 0 <= jj < vx_n2 && (#[trigger] trunc_table(**s)[jj]).1.1 <= 65535 ==> fresh(*shard_col, ll, trunc_table(**s)[jj].0),
                             forall|hh: u64| #[trigger] fresh(c0, ll, hh) ==> fresh(*shard_col, ll, hh),
                             forall|hh: u64| (forall|jj: int| 0 <= jj < vx_n2 ==> (#[trigger] trunc_table(**s)[jj]).0 != hh) ==> #[trigger] same_at(shard_col.chunk_lookup@, c0.chunk_lookup@, hh),
                         decreases insert_hashes@.len() - vx_n2,
